@@ -64,6 +64,8 @@ pub fn spec(prop: &str) -> Spec {
         "C14" => (vec![s("proxy:C14", 1)], 1200, 40000),
         "C15" => (vec![s("proxy:C15", 1)], 800, 20000),
         "C16" => (vec![s("provision:C16", 1)], 1200, 40000),
+        "C18" => (vec![s("telemetry:C18", 1)], 400, 12000),
+        "C19" => (vec![s("disk:C19", 1)], 600, 20000),
         _ => (vec![], 0, 0),
     };
     if prop == "C08" {
